@@ -9,8 +9,12 @@ from ..par import pmap
 from ..report import Result, Broken
 from . import c01
 
-ALLOWED_EXTERNALS = ('memcpy', 'memset', 'memmove')
-ALLOWED_PREFIXES = ('llvm.memcpy.', 'llvm.memset.', 'llvm.memmove.', 'llvm.dbg.', 'llvm.lifetime.')
+# externals without hidden state: the three copy routines the library uses, pure string/memory predicates, and the
+# no-return failure paths of assert(); every llvm.* intrinsic except the va_* family is stateless
+ALLOWED_EXTERNALS = ('memcpy', 'memset', 'memmove', 'memcmp', 'memchr', 'strlen', 'strnlen', 'strcmp', 'strncmp',
+                     '__assert_fail', 'abort', '__memcpy_chk', '__memset_chk', '__memmove_chk')
+ALLOWED_PREFIXES = ('llvm.',)
+DENIED_PREFIXES = ('llvm.va_',)
 CTX = None
 
 
@@ -50,10 +54,10 @@ def scan(mod):
                     cal = c[1]
                 if cal in mod.functions:
                     continue
-                if cal in ALLOWED_EXTERNALS or cal.startswith(ALLOWED_PREFIXES):
+                if (cal in ALLOWED_EXTERNALS or cal.startswith(ALLOWED_PREFIXES)) and not cal.startswith(DENIED_PREFIXES):
                     continue
                 out.append(('extern-call:%s:%s' % (name, cal),
-                            '%s: calls %s, which is outside the library and not one of memcpy/memset/memmove: hidden state or effects'
+                            '%s: calls %s, which is outside the library and not a known stateless routine (memcpy/memset/memmove/...): hidden state or effects'
                             % (where, cal)))
         for ins, kind, ptr, a, wname in rules.access_sites(mod, fn):
             if kind not in ('store', 'memdst'):
